@@ -199,12 +199,18 @@ func compareDebianNonDigits(a, b string) int {
 			bChar = 0 // null character
 		}
 
-		// Apply Debian character weights
-		aWeight := getDebianCharWeight(aChar)
-		bWeight := getDebianCharWeight(bChar)
+		// Apply Debian character classes, then the characters themselves
+		aClass := getDebianCharClass(aChar)
+		bClass := getDebianCharClass(bChar)
 
-		if aWeight != bWeight {
-			if aWeight < bWeight {
+		if aClass != bClass {
+			if aClass < bClass {
+				return -1
+			}
+			return 1
+		}
+		if aChar != bChar {
+			if aChar < bChar {
 				return -1
 			}
 			return 1
@@ -214,16 +220,18 @@ func compareDebianNonDigits(a, b string) int {
 	return 0
 }
 
-// getDebianCharWeight returns the sort weight for a character per Debian rules
-// Tilde (~) sorts earliest, then null, then letters/other chars
-func getDebianCharWeight(r rune) int {
-	switch r {
-	case '~':
-		return -1 // Tilde sorts before everything else
-	case 0:
-		return 0 // Null/missing character
+// getDebianCharClass returns the sort class of a character per Debian rules:
+// tilde sorts earliest, then the end of the string, then letters, then everything else
+func getDebianCharClass(r rune) int {
+	switch {
+	case r == '~':
+		return 0 // Tilde sorts before everything else
+	case r == 0:
+		return 1 // Null/missing character
+	case unicode.IsLetter(r):
+		return 2 // Letters sort before other characters
 	default:
-		return int(r) // Use Unicode value for other characters
+		return 3
 	}
 }
 
